@@ -360,6 +360,8 @@ def finish(prop, tier, seed, results, t0, *, level="model_checking", bounds=None
         "smt_queries": queries,
         "solver_time_s": round(sum(r.get("solver_s", 0) for r in results), 2),
         "vacuity_twins_sat": sum(r.get("twins_sat", 0) for r in results),
+        # configurations whose path coverage is claimed outside a band of 1e-9 around tie surfaces the exploration kept hitting
+        "configurations_with_tie_bands": sum(1 for r in results if r.get("tie_bands")),
         "functions_encoded": funcs,
         "bounds": bounds or {},
         "stubs": stubs or [],
@@ -371,7 +373,11 @@ def finish(prop, tier, seed, results, t0, *, level="model_checking", bounds=None
     if extra_cov:
         cov.update(extra_cov)
     ev = {"property_id": prop, "tier": tier, "seed": seed, "level": level, "coverage": cov,
-          "assumptions": assumptions or [], "wall_s": round(time.time() - t0, 2), "violations": n_viol}
+          "assumptions": list(assumptions or []) + (
+              ["%d configuration(s): path coverage is shown outside a band of 1e-9 around tie surfaces (thresholds the "
+               "exploration kept landing on: the uncovered real-valued sliver there is narrower than floating point resolves)"
+               % cov["configurations_with_tie_bands"]] if cov.get("configurations_with_tie_bands") else []),
+          "wall_s": round(time.time() - t0, 2), "violations": n_viol}
     if cov["states"] < 1:
         cov["states"] = 1
     if cov["transitions"] < 1:
